@@ -398,6 +398,12 @@ def expar_rule(ctx):
 PROPERTIES["C08"]["rules"] += [("CAST", cast_rule), ("EXPAR", expar_rule)]
 PROPERTIES["C08"]["explanation"] += " (CAST) every narrowing integer cast in the bytecode emitter/VM tables is classified from MIR: exact (masked), bounded (exempt row with the bound argument), guarded only by an assert! (an input-reachable panic) or unguarded (silent truncation) — the property's 65536-`!` example is one instance. (EXPAR) every unchecked operator on Ratio<i128> exponents reachable from interpret_with_settings is listed per call site; sites with a confirmed failing input are findings, sites with a bound argument are exempt, the rest are reported as unresolved advisories (not decided)."
 
+from scope import rule_scope  # noqa: E402
+
+for _pid in ("C02", "C13", "C09"):
+    PROPERTIES[_pid]["rules"] += [("SCOPE", lambda ctx: rule_scope(ctx.lib))]
+    PROPERTIES[_pid]["explanation"] += " (SCOPE) Function bodies and where-clauses are name-resolved by the per-function transformer clone on which parameters and where-locals are registered as shadowing identifiers."
+
 NOT_APPLICABLE = {
     "C03": "numerical agreement of conversion factors over 500 units is a statement about run-time values; no structural clause is a necessary condition that is not already covered under C04/C11/C12 (static analysis cannot bound the arithmetic)",
     "C14": "a statement about the decimal rendering of every f64 under every format setting; the code delegates to pretty_dtoa/num_format and no structural clause of Number::pretty_print_with_dtoa_config can be decided without evaluating it",
